@@ -82,6 +82,9 @@ def run_case(ctx, case):
 
 def run(ctx):
     rng = ctx["rng"]
+    # corpus: Newton step 0/0 -> NaN -> endless span search (repaired); degree-2 spline with a start parameter where C' = 0
+    run_case(ctx, ser(dict(kind="proj", label="corpus", U=[F(0)] * 3 + [F(1)] + [F(2)] * 3,
+                           P=[(F(0), F(0)), (F(1), F(1)), (F(2), F(0)), (F(3), F(1))], W=None, pt=[F(1), F(0)])))
     for i in range(budget(ctx, 70, 900)):
         dim = rng.choice([2, 2, 3])
         nseg = rng.randint(1, 5)
@@ -91,8 +94,17 @@ def run(ctx):
         for a, b in zip(range(nseg), range(1, nseg + 1)):
             if P[a] == P[b]:
                 P[b] = tuple(x + 1 for x in P[b])
-        label = rng.choice(["random", "random", "oncurve", "equidistant", "beyond"])
-        if label == "oncurve":
+        label = rng.choice(["random", "random", "oncurve", "equidistant", "beyond", "nearvertex", "nearcorner"])
+        if label in ("nearvertex", "nearcorner") and nseg >= 2:
+            # minimal distance tiny but other candidates only ~1e-3 farther: a tie filter on the wrong scale keeps them
+            j = rng.randrange(1, nseg)
+            eps = F(1, 2 ** rng.randint(9, 12))
+            a_, v_, b_ = P[j - 1], P[j], P[j + 1]
+            if label == "nearvertex":
+                pt = [x + eps * (y - x) for x, y in zip(v_, a_)]          # on the curve, just before the vertex
+            else:
+                pt = [x + eps * ((y - x) + (z - x)) / 2 for x, y, z in zip(v_, a_, b_)]   # inside the corner, near both legs
+        elif label == "oncurve":
             j = rng.randrange(nseg)
             lam = F(rng.randint(0, 8), 8)
             pt = [a + lam * (b - a) for a, b in zip(P[j], P[j + 1])]
